@@ -239,6 +239,8 @@ def set_ops(inner):
         st.tuples(st.just("isub"), its), st.tuples(st.just("difference_update"), its), st.tuples(st.just("pop")),
         st.tuples(st.just("intersection_update"), its), st.tuples(st.just("iand"), its),
         st.tuples(st.just("ior_fs"), its), st.tuples(st.just("ixor_fs"), its),          # frozenset operands
+        # update() with several iterables is ONE operation: an invalid item in a later iterable refuses all of it
+        st.tuples(st.just("update2"), its, its), st.tuples(st.just("update2"), its, its), st.tuples(st.just("update3"), its, its, its),
         st.tuples(st.just("clear")), st.tuples(st.just("assign"), its),
         st.tuples(st.just("assign_other"), st.sampled_from([None, 5, [1]])),
         st.tuples(st.just("assign_copy"), its), st.tuples(st.just("assign_twin"), its),
@@ -410,6 +412,8 @@ def m_set(m, op, c):
         m.update(cs(set(op[1])))          # (the operand really is set(items): equal items have collapsed already)
     elif k == "update":
         m.update(cs(op[1]))
+    elif k in ("update2", "update3"):
+        m.update(cs([x for part in op[1:] for x in part]))
     elif k in ("ixor", "sdu", "ixor_fs"):
         values = set(op[1])
         removed = m & values
@@ -444,6 +448,8 @@ def r_set(s, op):
         s.add(op[1])
     elif k == "update":
         s.update(op[1])
+    elif k in ("update2", "update3"):
+        s.update(*op[1:])
     elif k == "ior":
         s |= set(op[1])
     elif k == "ixor":
